@@ -1064,6 +1064,25 @@ fn gen_c15(rng: &mut Rng, tier: &str, emit: Emit) {
             }
         }
     }
+    // every code point up to U+017F (all ASCII incl. control characters, Latin-1, Latin Extended-A) as the only unusual character of
+    // an otherwise valid string, at the first, a middle and the last position; short strings for every type, long ones (the heap
+    // path of `Bv`) for the dynamic types
+    for ty in TYPES {
+        for hex in [false, true] {
+            let op = if hex { "from_hex" } else { "from_binary" };
+            let mut ns = vec![3usize];
+            if ty.kind != Kind::F { ns.push(if hex { 40 } else { 140 }); }
+            for n in ns {
+                if n * (if hex { 4 } else { 1 }) > ty.cap().unwrap_or(usize::MAX) { continue; }
+                for cp in 0u32..0x180 {
+                    let c = char::from_u32(cp).unwrap();
+                    let pos = [0, n / 2, n - 1][(cp as usize + n) % 3];
+                    let s: String = (0..n).map(|i| if i == pos { c } else if hex { ['a', '7', 'F', '0'][i % 4] } else { ['1', '0'][i % 2] }).collect();
+                    emit(line(op, &[ty.tag, &chars_token(&s)]));
+                }
+            }
+        }
+    }
     for ty in TYPES {
         let cap = ty.cap().unwrap_or(MAXD);
         for hex in [false, true] {
